@@ -43,5 +43,9 @@ ObsPreds ==
          j <= Len(Obs.pred) =>
            Chk("prediction_is_uniform_swing:unit=" \o ToString(j) \o ",observed=" \o ToString(Obs.pred[j]),
                Obs.pred[j] \in st.preds[j])
+\* "baseline-weighted": the weights handed to the median regression are proportional to the last-election results
+\* (recorded as a flag by the run-time wrapper; records with hamlets = TRUE carry the flag of the same election re-run
+\* with very unequal unit sizes, where a floor or cap on the relative weights would show)
+ObsWeights == pc \in {"done", "excluded"} => Chk("regression_weights_are_the_baselines", Obs.wprop)
 Excluded == pc = "excluded" => PrintT(<<"EXCL", ToJson([tid |-> tid])>>)
 =============================================================================
